@@ -380,7 +380,7 @@ def load_with_log(fn, *a, **kw):
 
 
 def graph_signature(g):
-    sig = [("v", v.id, type(v.pose).__name__, tuple(M.fl(v.pose))) for v in g._vertices]
+    sig = [("v", v.id, type(v.pose).__name__, tuple(M.fl(v.pose)), bool(v.fixed)) for v in g._vertices]
     for e in g._edges:
         sig.append(("e", type(e).__name__, tuple(e.vertex_ids), tuple(M.fl(e.estimate)), tuple(M.fl(e.information)), tuple(M.fl(e.offset)) if getattr(e, "offset", None) is not None else None,
                     getattr(e, "offset_id", None)))
@@ -466,6 +466,25 @@ def run_case(ctx, i, rng):
             plain = sum(1 for e in g_ov._edges if type(e) is M.EdgeOdometry and isinstance(e.estimate, M.PoseSE2))
             ctx.check("custom-types-claim-own-lines", got == want and plain == 0 and len(g_ov._edges) == len(g._edges), dict(feats, variant="registered type claims the built-in tag EDGE_SE2"),
                       {"EDGE_SE2_lines": want, "claimed": got, "left_to_builtin_parser": plain}, case)
+            # several registered types that recognise the *same* tag: the caller's list order decides (first one that accepts the line), whatever the
+            # hash order of the classes is; and a type that declines a line (returns None) leaves it to the next one, line by line
+            firsts = [custom.make_dist_variant("A"), custom.make_dist_variant("B"), custom.make_dist_variant("C")]
+            order = [firsts[int(j)] for j in rng.permutation(3)]
+            g_sh, _ = load_with_log(M.Graph.from_g2o, path, custom_edge_types=order + [custom.TaggedPriorEdge])
+            n_dist = sum(1 for e in edges if e["what"] == "custom" and e["tag"] == "EDGE_VF_DIST")
+            got_first = sum(1 for e in g_sh._edges if type(e) is order[0])
+            got_other = sum(1 for e in g_sh._edges if type(e) in order[1:])
+            ctx.check("custom-types-claim-own-lines", got_first == n_dist and got_other == 0, dict(feats, variant="three registered types accept the same tag: list order decides"),
+                      {"lines": n_dist, "first_listed_type_got": got_first, "later_types_got": got_other}, case)
+            picky = [custom.make_dist_variant("even", accept=lambda a, b: (a + b) % 2 == 0), custom.make_dist_variant("odd", accept=lambda a, b: (a + b) % 2 == 1)]
+            if rng.random() < 0.5:
+                picky.reverse()
+            g_pk, _ = load_with_log(M.Graph.from_g2o, path, custom_edge_types=picky + [custom.TaggedPriorEdge])
+            want_even = sum(1 for e in edges if e["what"] == "custom" and e["tag"] == "EDGE_VF_DIST" and (int(e["tokens"][0]) + int(e["tokens"][1])) % 2 == 0)
+            got_even = sum(1 for e in g_pk._edges if type(e).__name__ == "DistVariant_even")
+            got_odd = sum(1 for e in g_pk._edges if type(e).__name__ == "DistVariant_odd")
+            ctx.check("custom-types-claim-own-lines", got_even == want_even and got_odd == n_dist - want_even, dict(feats, variant="two registered types share a tag and tell their lines apart by content"),
+                      {"lines": n_dist, "even": [got_even, want_even], "odd": [got_odd, n_dist - want_even]}, case)
         else:
             ctx.check("custom-types-claim-own-lines", True)
         # no state across loads: load another file with clashing ids and parameter ids, then this file again
